@@ -37,9 +37,33 @@ def eff_style(d, o):
 
 
 def wsdl_files(d) -> dict:
-    """The definition as files: svc.wsdl, and types.xsd when the schema is imported."""
+    """The definition as files: svc.wsdl; types.xsd when the schema is imported; iface.wsdl when the definition is
+    split into an interface document (types, messages, portType) imported by the binding / service document."""
+    if d.get("types") == "wsdl-import":
+        return wsdl_split(d)
     text, schema = wsdl_text(d, split=d.get("types") == "imported")
     return {"svc.wsdl": text, **({"types.xsd": schema} if schema else {})}
+
+
+def wsdl_split(d) -> dict:
+    """Two WSDL documents that BOTH carry inline <types>: iface.wsdl (body / fault elements, messages, portType) is
+    imported by svc.wsdl (header elements, header message, binding, service)."""
+    import re
+
+    whole, _ = wsdl_text(d)
+    tns = d["tns"]
+    head = whole[: whole.index("<types>")]
+    els = re.findall(r"<xsd:(?:element|complexType) name=.*?</xsd:(?:element|complexType)>(?=<xsd:(?:element|complexType) name=|</xsd:schema>)", whole[whole.index("<types>"): whole.index("</types>")])
+    msgs = re.findall(r"<message .*?</message>", whole)
+    port = whole[whole.index("<portType"): whole.index("</portType>") + len("</portType>")]
+    rest = whole[whole.index("<binding"):]
+    is_hdr = lambda x: 'name="Auth"' in x or 'name="Audit"' in x or 'name="AuthHeader"' in x  # noqa: E731
+    schema = lambda items: f'<types><xsd:schema targetNamespace="{tns}" elementFormDefault="qualified">{"".join(items)}</xsd:schema></types>'  # noqa: E731
+    iface = head + schema([e for e in els if not is_hdr(e)]) + "".join(m for m in msgs if not is_hdr(m)) + port + "</definitions>"
+    hdr_els = [e for e in els if is_hdr(e)]
+    svc = (head + f'<import namespace="{tns}" location="iface.wsdl"/>' + (schema(hdr_els) if hdr_els else "")
+           + "".join(m for m in msgs if is_hdr(m)) + rest)
+    return {"svc.wsdl": svc, "iface.wsdl": iface}
 
 
 def wsdl_text(d, split=False):
@@ -167,7 +191,7 @@ def pascal(name):
 def check_def(ctx, c):
     d = c["def"]
     files = wsdl_files(d)
-    text = files["svc.wsdl"] + ("\n<!-- types.xsd -->\n" + files["types.xsd"] if "types.xsd" in files else "")
+    text = "\n".join(f"<!-- {k} -->\n{v}" for k, v in files.items())
     gen = cg.generate(files, ["svc.wsdl"])
     try:
         info = {"wsdl": text, "definition": d}
